@@ -18,7 +18,7 @@ func extractLabel(p *Pkg) {
 		return
 	}
 	p.factConst("labelMaxName", "maxNameLength")
-	p.factCmp("labelNameCmp", "labelsFromBytes", "len(label)")
+	p.factCmpOp("labelNameCmp", "labelsFromBytes", "label.Len()", ">")
 	fd := p.funcDecl("labelsFromBytes")
 	if fd == nil {
 		for _, n := range names[2:] {
